@@ -209,7 +209,7 @@ impl Audit<'_, WithLeafHash, WithRoot> {
                 root,
             },
         } = self;
-        *root == proof.reconstruct_root_with_leaf_hash(*leaf_hash)
+        proof.is_leaf_hash_in_tree(*leaf_hash, *root)
     }
 }
 
@@ -538,23 +538,39 @@ impl Proof {
     /// ```
     #[must_use]
     pub fn reconstruct_root_with_leaf_hash(&self, leaf_hash: [u8; 32]) -> [u8; 32] {
+        self.walk_audit_path(leaf_hash).0
+    }
+
+    /// Returns whether walking the audit path starting from `leaf_hash` ends in `root_hash`.
+    ///
+    /// An audit path with more elements than there are levels between the leaf and the root
+    /// of a tree of the proof's size is never valid.
+    pub(super) fn is_leaf_hash_in_tree(&self, leaf_hash: [u8; 32], root_hash: [u8; 32]) -> bool {
+        let (reconstructed, stayed_inside_tree) = self.walk_audit_path(leaf_hash);
+        stayed_inside_tree && reconstructed == root_hash
+    }
+
+    /// Walks the audit path and returns the reconstructed hash together with a flag indicating if
+    /// every step of the walk had a parent inside the tree. If the audit path is longer than the
+    /// path from the leaf to the root, the surplus elements are folded in as right siblings and the
+    /// flag is `false`.
+    fn walk_audit_path(&self, leaf_hash: [u8; 32]) -> ([u8; 32], bool) {
         let Self {
             audit_path,
             leaf_index,
             tree_size,
         } = self;
-        let mut i = crate::leaf_index_to_tree_index(*leaf_index);
+        let mut i = leaf_index.checked_mul(2);
         let mut acc = leaf_hash;
         for sibling in audit_path.chunks(32) {
-            let parent = crate::complete_parent(i, tree_size.get());
-            if parent > i {
-                acc = crate::combine(&acc, sibling);
-            } else {
-                acc = crate::combine(sibling, &acc);
+            let parent = i.and_then(|i| crate::try_complete_parent(i, tree_size.get()));
+            match (i, parent) {
+                (Some(i), Some(parent)) if parent < i => acc = crate::combine(sibling, &acc),
+                _ => acc = crate::combine(&acc, sibling),
             }
             i = parent;
         }
-        acc
+        (acc, i.is_some())
     }
 
     /// Walks the audit path to reconstruct the root hash starting from a node.
